@@ -450,6 +450,25 @@ fn decode_balance(_args: &Value) -> Value {
     }
 }
 
+/// C17 / C06: exactness of the amount encoding on boundary amounts, through the feature-gated access point to the real
+/// `PaymentAmount::to_scalar` (a panic in there - e.g. abs() on i64::MIN - aborts this process: also a reproduction)
+fn amount_encoding(_args: &Value) -> Value {
+    let vals = [i64::MIN, i64::MIN + 1, -(1i64 << 62), -7, -1, 0, 1, 7, 1i64 << 62, i64::MAX];
+    let mut bad = vec![];
+    for a in vals {
+        let amt: PaymentAmount = match bincode::deserialize(&a.to_le_bytes()) {
+            Ok(x) => x,
+            Err(_) => continue,
+        };
+        let s = zkabacus_crypto::verif_hooks::amount_to_scalar(amt);
+        let expect = if a >= 0 { Scalar::from(a as u64) } else { -Scalar::from(a.unsigned_abs()) };
+        if s != expect {
+            bad.push(a);
+        }
+    }
+    json!({"reproduced": !bad.is_empty(), "detail": format!("amount encoding differs from the signed embedding for {:?}", bad)})
+}
+
 /// C17: allow_payment with the wire-reachable amount i64::MIN (panics in PaymentAmount::to_scalar with overflow checks on)
 fn amount_min(_args: &Value) -> Value {
     let mut w = world(7);
@@ -486,6 +505,7 @@ fn main() {
         "vec-hint" => vec_hint(&a),
         "decode-balance" => decode_balance(&a),
         "amount-min" => amount_min(&a),
+        "amount-encoding" => amount_encoding(&a),
         _ => json!({"reproduced": false, "detail": format!("unknown replay command {}", cmd)}),
     };
     let _: Option<Nonce> = None;
